@@ -6,3 +6,5 @@ import XPathV.Theorems.C06
 #print axioms XPathV.Theorems.C06.C06_exactly_one
 #print axioms XPathV.Theorems.C06.sequence_depth_guarded
 #print axioms XPathV.Theorems.C06.expression_depth_guarded
+#print axioms XPathV.Theorems.C06.C06_total
+#print axioms XPathV.Theorems.C06.scanner_progress
